@@ -159,6 +159,7 @@ type aspectCallFrameMarshaling struct {
 type callTracer struct {
 	noopTracer
 	callstack []callFrame
+	depth     int // nesting depth of the calls skipped in OnlyTopCall mode
 	config    callTracerConfig
 	gasLimit  uint64
 	interrupt atomic.Bool // Atomic flag to signal execution interruption
@@ -185,6 +186,10 @@ func newCallTracer(ctx *tracers.Context, cfg json.RawMessage) (tracers.Tracer, e
 }
 
 func (t *callTracer) CaptureAspectEnter(joinpoint types.JoinPointRunType, from, to, aspectId common.Address, input []byte, gas uint64, value *big.Int, execCtx proto.Message) {
+	// in OnlyTopCall mode the frames of nested calls are not collected, and neither are their join points
+	if t.config.OnlyTopCall && t.depth > 0 {
+		return
+	}
 	rawExecCtx, err := json.Marshal(execCtx)
 	if err != nil {
 		t.Stop(err)
@@ -218,6 +223,9 @@ func (t *callTracer) CaptureAspectEnter(joinpoint types.JoinPointRunType, from, 
 }
 
 func (t *callTracer) CaptureAspectExit(joinpoint types.JoinPointRunType, result *types.AspectExecutionResult) {
+	if t.config.OnlyTopCall && t.depth > 0 {
+		return
+	}
 	// reset join point if we exit
 	last := len(t.callstack) - 1
 	t.callstack[last].joinPoint = types.JoinPointRunType_Unknown
@@ -300,6 +308,7 @@ func (t *callTracer) CaptureState(pc uint64, op vm.OpCode, gas, cost uint64, sco
 // CaptureEnter is called when EVM enters a new scope (via call, create or selfdestruct).
 func (t *callTracer) CaptureEnter(typ vm.OpCode, from common.Address, to common.Address, input []byte, gas uint64, value *big.Int) {
 	if t.config.OnlyTopCall {
+		t.depth++
 		return
 	}
 	// Skip if tracing was interrupted
@@ -324,6 +333,9 @@ func (t *callTracer) CaptureEnter(typ vm.OpCode, from common.Address, to common.
 // execute any code.
 func (t *callTracer) CaptureExit(output []byte, gasUsed uint64, err error) {
 	if t.config.OnlyTopCall {
+		if t.depth > 0 {
+			t.depth--
+		}
 		return
 	}
 	size := len(t.callstack)
